@@ -21,7 +21,7 @@ Local Open Scope Z_scope.
 Inductive cerr :=
   | EmptyImage | ImageTooBig | WidthOverflow | BadPrecision | ComponentCount
   | BadSampling | BadScanScript | BadProgScript | MissingData | BadMcuSize
-  | FractSample | ConversionNotImpl | ArithNotImpl | BadDctCoef | MissingCode.
+  | FractSample | ConversionNotImpl | ArithNotImpl | BadDctCoef | MissingCode | NoQuantTable | NoHuffTable.
 
 (* ------------------------------------------- arrays of the C code and the trace *)
 Inductive arr :=
